@@ -110,11 +110,15 @@ func (a *Assemble) store(identifier string) error {
 func (a *Assemble) append(identifier string) error {
 	if len(identifier) == 0 {
 		if len(a.proc.lines) == 1 {
-			// Treat as literal, could be start of a group or a range expresssion.
-			// Those can not be parsed by rassemble-go, since they are not valid
-			// expressions.
-			a.output.WriteString(a.proc.lines[0])
-			a.proc.lines = []string{}
+			// Treat as literal if the line is not a valid expression on its own,
+			// could be start of a group or a range expresssion.
+			// Those can not be parsed by rassemble-go. Valid expressions must go
+			// through the assembly so that they are grouped before concatenation
+			// (they could contain an alternation).
+			if _, err := rassemble.Join(a.proc.lines); err != nil {
+				a.output.WriteString(a.proc.lines[0])
+				a.proc.lines = []string{}
+			}
 		}
 		regex, err := a.runAssemble()
 		if err != nil {
